@@ -708,6 +708,93 @@ def behaviour(m, spec, with_filter=True):
     return out
 
 
+LONG_SPAN = None
+
+
+def long_span():
+    global LONG_SPAN
+    if LONG_SPAN is None:
+        LONG_SPAN = ir.qq(2020, 1) >> ir.qq(2022, 4)
+    return LONG_SPAN
+
+
+def use_step(m, spec, step):
+    """one use of a solved model (no steady/solve: the Solution objects and whatever they cache are kept); bits of the result"""
+    sp = long_span()
+    kind = step[0]
+    if kind == "kf":
+        fdb = ir.Databox()
+        fdb["o1"] = ir.Series(start=sp.start, values=np.array([1.0, 2.0, 1.5, 1.25, 0.5, 1.0, 0.75, 1.5]))
+        with quiet():
+            k = m.kalman_filter(fdb, sp.start >> sp.start + 7)
+        return kalman_bits(k[0] if isinstance(k, tuple) else k)
+    deviation = bool(step[3]) if len(step) > 3 else False
+    db = m.build_steady_paths(sp, deviation=deviation)
+    if kind == "ant":          # anticipated shock `ant_<name>` at horizon h: uses the forward expansion of the solution
+        db["ant_" + step[1]] = ir.Series(periods=[sp.start + step[2]], values=[1.0])
+    elif kind == "unant":
+        db[step[1]] = ir.Series(periods=[sp.start + step[2]], values=[1.0])
+    sim = m.simulate(db, sp, deviation=deviation)
+    sim = sim[0] if isinstance(sim, tuple) else sim
+    return series_bits(sim, variable_names(spec))
+
+
+def used_oracle(ctx: Ctx, case, spec, a, x, rng):
+    """`a` is solved (by `behaviour`).  Copies are taken BEFORE `a` is used, `a` is used (anticipated shocks at a short horizon,
+    filter, deviation run: whatever a Solution object caches lazily gets filled), copies are taken AFTER, a twin gets brand-new
+    solution objects; then the same probes (longer horizons in sequence, short again, unanticipated, deviation, filter) run on
+    all of them and must agree with the used original at the bit level."""
+    shocks = [f"e{i}" for i in range(1, spec["n"] + 1) if spec["shocks"][i - 1]]
+    can_filter = spec["meas"] and not spec["deterministic"] and spec["mshock"]
+    if not shocks and not can_filter:
+        return
+    h1, h2, h3 = rng.randint(1, 2), rng.randint(4, 6), rng.randint(8, 10)
+    warm, probes = [], []
+    for e in shocks[:2]:
+        warm.append(["ant", e, h1, False])
+    if can_filter:
+        warm.append(["kf"])
+    if shocks and rng.chance(0.5):
+        warm.append(["ant", shocks[0], h1, True])
+    for e in shocks[:2]:
+        probes += [["ant", e, h2, False], ["ant", e, h3, False], ["ant", e, rng.randint(1, 3), False]]
+    if shocks:
+        probes += [["unant", shocks[0], 2, False], ["ant", shocks[0], h3, True]]
+    if can_filter:
+        probes.append(["kf"])
+    usage = {"warm": warm, "probes": probes}
+    try:
+        before = {"copy-before-use": a.copy(), "pickle-before-use": roundtrip(a, "pickle")}
+        fresh = x.copy()
+        with quiet():
+            fresh.steady()
+        fresh.solve()
+        for st in warm:
+            use_step(a, spec, st)
+        after = {"copy-after-use": a.copy(), rng.choice(["pickle", "deepcopy", "dill"]) + "-after-use": None}
+        via = [k for k in after if after[k] is None][0]
+        after[via] = roundtrip(a, via.split("-")[0])
+        ref = [use_step(a, spec, st) for st in probes]
+    except Exception as e:
+        ctx.count("used_oracle_skipped:" + type(e).__name__)
+        return
+    ctx.count("used_oracle_compared")
+    if spec["fwd"] and shocks:
+        ctx.count("used_oracle_forward_looking_with_anticipated_shocks")
+    for name, t in list(before.items()) + list(after.items()) + [("re-solved-twin", fresh)]:
+        try:
+            got = [use_step(t, spec, st) for st in probes]
+        except Exception as e:
+            ctx.fail("used-original-differs-from-copy", dict(case, usage=usage), f"{name} raises {e!r} on a probe the used original runs")
+            continue
+        ctx.evaluations += 1
+        for st, r, g in zip(probes, ref, got):
+            if r != g:
+                ctx.fail("used-original-differs-from-copy", dict(case, usage=usage),
+                         f"probe {st}: the original (used before with {warm}) and its {name} give different results")
+                break
+
+
 def kalman_bits(k):
     h = hashlib.sha256()
 
@@ -744,7 +831,9 @@ def final_oracles(ctx: Ctx, case, handles, fam):
     cands = [m for m in handles if not has_dups(m)]
     if not cands:
         return
-    rng = ctx.rng.fork("final")
+    # the choices below depend on the case only, so that a replay makes the same ones
+    from .common import Rng
+    rng = Rng(int.from_bytes(hashlib.sha256(json.dumps(case, sort_keys=True, default=str).encode()).digest()[:8], "big"))
     a = rng.choice(cands)
     # --- copies behave identically -----------------------------------------------------
     twins = {"copy": a.copy()}
@@ -768,6 +857,8 @@ def final_oracles(ctx: Ctx, case, handles, fam):
             if ref[key] != got[key]:
                 ctx.fail("copy-behaves-differently", case, f"{name}: {key} differs from the original after the same steady/solve/simulate/filter calls")
         ctx.evaluations += 1
+    # --- a USED original vs copies taken before / after the use vs a twin with brand-new solution objects -------------
+    used_oracle(ctx, case, spec, a, x, rng)
     # --- variant k vs a singleton with the same values ----------------------------------
     nv = x.num_variants
     names_v = variable_names(spec)
